@@ -170,8 +170,42 @@ def subprocess_instance(job, cfg, hashseed):
 # ---------------------------------------------------------------------------
 # the run (in the pristine worker: draws + children only)
 # ---------------------------------------------------------------------------
+def promote_job(tape):
+    """Several objects without a behavior get one in the same step (override in a compose
+    block); the behaviors draw random values, so the order in which the new agents are
+    scheduled decides which of them gets which random number."""
+    k = tape.intrange(2, 4, "promote.k")
+    steps = tape.intrange(2, 4, "promote.steps")
+    lines = ["from simverif.userlib import Tok", "behavior D():", "    while True:",
+             "        _d = DiscreteRange(0, 99)", "        take Tok(str(_d))", "scenario Main():", "    setup:"]
+    names = ["ego"] + [f"o{i}" for i in range(1, k)]
+    for i, nm in enumerate(names):
+        lines.append(f"        {nm} = new Object at ({3 * i}, 0, 0), with name 'o{i}'")
+    lines.append("    compose:")
+    if tape.chance(1, 2, "promote.wait_first"):
+        lines.append("        wait")
+    for nm in names:
+        lines.append(f"        override {nm} with behavior D()")
+    lines += ["        wait"] * (steps + 1)
+    d = {"tables": {}, "schedule": [], "max_steps": steps + 2, "timestep": "1"}
+    return {"src": "\n".join(lines) + "\n", "top": "Main", "mode2D": False, "dyn": d}, 2
+
+
+DEPENDENT_DEFAULTS = """class Thing(Object):
+    footprint: self.width * self.length + self.height + self.extra
+    extra: Range(0, 1)
+    width: Range(1, 2)
+    length: Range(1, 2)
+    height: Range(1, 2)
+thing = new Thing at (40, 40), with requireVisible False
+param thing_footprint = thing.footprint
+"""
+
+
 def make_job(tape):
-    kind = tape.draw(3, "kind")
+    kind = tape.draw(4, "kind")
+    if kind == 3:
+        return promote_job(tape)
     if kind < 2:
         # bias: several requirements and few parameters, so that some random values are
         # referenced only from requirements; a continuous parameter makes the digest
@@ -179,6 +213,10 @@ def make_job(tape):
         g = fd.FDGen(tape, req_range=(2, 5), param_max=1)
         prog = g.program()
         src = fd.render(prog) + "param zz = Range(0, 1)\n"
+        if tape.chance(1, 2, "dependent_defaults?"):
+            # a property default that depends on several random properties of the same
+            # object: the order in which specifier resolution visits them must be fixed
+            src += DEPENDENT_DEFAULTS
         # a block of independent random values that only requirements refer to: the order
         # in which they are sampled decides which of them gets which random number
         k = tape.intrange(0, 4, "reqonly.k")
